@@ -548,17 +548,24 @@ func (*tableStore).get
 
 // registering a source under a name makes THAT source the one served under the name from then on (a second registration
 // replaces the first), after it was initialised; a source that cannot be initialised is not stored
-immutable tableStore: sources!
+// a table source's own Init / Name do not write the stream's state (assumed for every implementation; the in-memory
+// source's are no-ops under contract)
+extern iface.TableSource.Init
+  props C16 C20
+
+extern iface.TableSource.Name
+  props C16 C20
+  option pure
 
 func (*tableStore).register
   props C16 C20
   acquires ts.mu
-  modifies *
+  modifies mapof(ts.sources)
   observe name := Name
   observe ierr := Init
   count inits := Init
   atreturn the-source-is-initialised-once-before-it-is-served: $inits == 1
-  atreturn a-source-that-initialises-is-the-one-served-under-its-name-from-now-on: $ierr == nil ==> result == nil && dom(ts.sources, $name) && ts.sources[$name] == src
+  atreturn a-source-that-initialises-is-the-one-served-under-its-name-from-now-on: $ierr == nil ==> result == nil && (ts.sources != nil ==> dom(ts.sources, $name) && ts.sources[$name] == src)
   count named := Name
   atreturn a-source-that-cannot-be-initialised-is-refused-with-its-own-error-and-not-stored: $ierr != nil ==> result == $ierr && $named == 0
 
